@@ -8,6 +8,7 @@
 #include <climits>
 #include <deque>
 #include <memory>
+#include <cmath>
 #include <poll.h>
 #include <sys/time.h>
 
@@ -34,6 +35,7 @@ struct Inst {
   long seq;
   int prio = 0, fd = 0, dir = 0;
   int64_t timeout = 0, base_min = 0, base_max = 0;
+  int64_t timeout_lo = -1;  // lower bound of the timeout when it was given as a double (the conversion to microseconds may lose < 1 us); -1: same as timeout
   void *cookie = nullptr;
   bool ready_reported = false;  // some poll after registration returned its direction bit
   long reg_poll = 0;            // number of polls completed when it was registered
@@ -74,6 +76,8 @@ struct World {
   bool have_poll = false;
   // run bookkeeping
   bool in_run = false, draining = false, failed = false;
+  int clock_fail_in = 0;          // the n-th next reading of the clock fails (once)
+  bool clock_failed_in_call = false;
   bool poll_reported_runnable = false;  // the previous poll of this call reported a pending registration ready
   long cb_since_poll = 0;
   int max_inst = 400;
@@ -117,6 +121,12 @@ static void advance(int64_t dt) {
 }
 
 extern "C" int monoclock_get(struct timeval *tv) {
+  if (W->clock_fail_in > 0 && --W->clock_fail_in == 0) {
+    W->clock_failed_in_call = true;
+    W->cls.insert("clock-failure");
+    errno = EINVAL;
+    return -1;
+  }
   if (W->jit_max > 0) {
     W->jit_state = W->jit_state * 6364136223846793005ULL + 1442695040888963407ULL;
     uint64_t r = W->jit_state >> 33;
@@ -135,7 +145,7 @@ extern "C" int monoclock_getres(double *r) {
   return 0;
 }
 
-static int64_t dl_min(const Inst *x) { return x->base_min + x->timeout; }
+static int64_t dl_min(const Inst *x) { return x->base_min + (x->timeout_lo >= 0 ? x->timeout_lo : x->timeout); }
 static int64_t dl_max(const Inst *x) { return x->base_max + x->timeout; }
 
 static bool any_pending_timer(int64_t *dmax_min) {
@@ -336,7 +346,21 @@ static void do_register(int j, bool in_cb) {
     if (x->timeout >= 2147483647LL * 1000000) w.cls.insert("timer-beyond-2^31-seconds");
     struct timeval tv = {(time_t)(x->timeout / 1000000), (suseconds_t)(x->timeout % 1000000)};
     api_begin();
-    x->cookie = shim_timer_register(cb, x.get(), tv.tv_sec, tv.tv_usec);
+    w.clock_failed_in_call = false;
+    if (t.p2 >= 1 && x->timeout < 4000000000000LL) {
+      // events_timer_register_double: whole seconds from p1 plus a fraction; fractions just below 1 and with more digits than microseconds
+      static const double FR[] = {-1, 0.9999997, 0.9999995, 0.99999949, 0.5, 0.000001, 0.0000004, 0.9999999999, 0.25, 0.999999};
+      double d = t.p2 == 1 ? (double)x->timeout / 1e6 : (double)(x->timeout / 1000000) + FR[1 + (size_t)((t.p2 - 2) % 9)];
+      x->timeout = (int64_t)std::ceil(d * 1e6);
+      x->timeout_lo = std::max<int64_t>(0, (int64_t)std::floor(d * 1e6) - 1);
+      x->cookie = shim_timer_register_double(cb, x.get(), d);
+      w.cls.insert("timer-register-double");
+    } else
+      x->cookie = shim_timer_register(cb, x.get(), tv.tv_sec, tv.tv_usec);
+    if (!x->cookie && w.clock_failed_in_call) {
+      w.cls.insert("clock-failure-at-timer-register");  // reported cleanly: there is no registration
+      return;
+    }
     if (!x->cookie) {
       w.fail(0, "timer-register-failed", "events_timer_register returned NULL");
       return;
@@ -408,7 +432,12 @@ static void do_reset(int j) {
   Inst *x = latest_pending(j);
   if (!x || x->kind != TMR) return;
   api_begin();
+  w.clock_failed_in_call = false;
   if (shim_timer_reset(x->cookie) != 0) {
+    if (w.clock_failed_in_call) {
+      w.cls.insert("clock-failure-at-timer-reset");  // the deadline is then unchanged
+      return;
+    }
     w.fail(0, "timer-reset-failed", "events_timer_reset failed");
     return;
   }
@@ -603,6 +632,7 @@ static void run_once(int spin_n, bool long_spin = false) {
     }
   }
   int rc;
+  w.clock_failed_in_call = false;
   if (spin_n > 0) {
     // events_spin runs until done: make sure it cannot block forever -- done is set after
     // spin_n callbacks, and the fair-kernel fallback guarantees progress while registrations exist
@@ -617,6 +647,12 @@ static void run_once(int spin_n, bool long_spin = false) {
   } else
     rc = shim_events_run();
   w.in_run = false;
+  if (w.clock_failed_in_call) {
+    // the clock could not be read inside the loop: -1 is a correct answer and progress cannot be demanded of this call
+    if (rc != -1 && rc != w.expect_rc) w.fail(5, "status-propagation", "events_run/spin returned " + std::to_string(rc) + " in a call during which the clock failed (expected -1 or the callback's result)");
+    w.cls.insert("clock-failure-inside-events_run");
+    return;
+  }
   if (spin_n <= 0) {
     if (w.runnable_at_entry && w.cb_in_run == 0 && !w.stop_seen)
       w.fail(5, "runnable-but-nothing-ran", "events_run started with something runnable and returned without running a callback");
@@ -671,6 +707,8 @@ static Outcome run_case(const Case &c, int oracle) {
     } else if (op.k == "spin") {
       run_once((int)std::max<int64_t>(1, std::min<int64_t>(A(0), 5)));
       nruns++;
+    } else if (op.k == "clockfail") {
+      w.clock_fail_in = (int)std::max<int64_t>(1, std::min<int64_t>(A(0), 3));
     } else if (op.k == "longspin") {
       run_once((int)std::max<int64_t>(1, std::min<int64_t>(A(0), 11000)), true);
       nruns++;
@@ -774,7 +812,10 @@ static rc::Gen<Case> gen_prog(int tier) {
         p1 = *rc::gen::weightedOneOf<int>({{3, range<int>(0, std::min(nfd, 4) - 1)}, {1, range<int>(0, nfd - 1)}});
         p2 = *range<int>(0, 1);
       } else
+      {
         p1 = *range<int>(0, 11) ? *rc::gen::elementOf(TIMEOUTS) : *rc::gen::elementOf(FAR_TIMEOUTS);
+        p2 = *rc::gen::weightedElement<int>({{6, 0}, {2, 1}, {1, 2}, {1, 3}, {1, 4}, {1, 8}});  // 0: timeval API; >= 1: events_timer_register_double
+      }
       int rcv = *rc::gen::weightedElement<int>({{12, 0}, {1, 1}, {1, 7}, {1, -3}});
       std::vector<int64_t> a = {kind, p1, p2, rcv};
       int na = *rc::gen::weightedElement<int>({{3, 0}, {3, 1}, {2, 2}, {1, 3}, {1, 4}});
@@ -797,7 +838,7 @@ static rc::Gen<Case> gen_prog(int tier) {
     if (*range<int>(0, 2) == 0) c.push_back(Op("jitter", {*rc::gen::elementOf(std::vector<int64_t>{1, 50, 999, 3000}), *rc::gen::arbitrary<int>()}));
     int steps = *range<int>(5, tier ? 120 : 60);
     for (int s = 0; s < steps; s++) {
-      int k = *rc::gen::weightedElement<int>({{8, 0}, {2, 1}, {1, 2}, {5, 3}, {2, 4}, {7, 5}, {1, 6}, {2, 7}, {1, 8}, {1, 9}});
+      int k = *rc::gen::weightedElement<int>({{24, 0}, {6, 1}, {3, 2}, {15, 3}, {6, 4}, {21, 5}, {3, 6}, {6, 7}, {3, 8}, {3, 9}, {1, 10}});
       switch (k) {
       case 0:
         c.push_back(Op("reg", {*range<int>(0, ntpl - 1)}));
@@ -830,6 +871,9 @@ static rc::Gen<Case> gen_prog(int tier) {
         break;
       case 9:
         c.push_back(Op("sigint", {*range<int>(1, 2), *range<int>(0, 1)}));
+        break;
+      case 10:
+        c.push_back(Op("clockfail", {*range<int>(1, 3)}));
         break;
       }
     }
